@@ -289,6 +289,29 @@ theorem cores_are_chains_ring_wide_partial (r : Rec) (hcirc : r.circular = true)
   · obtain ⟨m, hm, e⟩ := hg.hiAtt
     exact ⟨m, hm, by omega⟩
 
+/-- … and consecutive cores are at least the cutoff apart as spans: every later core starts at least `c`
+    positions after every earlier core ends (linear record, and circular record with the anchors in a wide
+    arc) — the separation `merge_over_origin` relies on to leave them alone -/
+theorem cores_apart_linear (r : Rec) (hlin : r.circular = false) (c : Int) (hc : 0 ≤ c)
+    (anchors : List Loc) (hne : anchors ≠ []) (hok : ∀ l ∈ anchors, GeneOK r.len l) :
+    ∃ cores, findCores r c anchors = .ok cores ∧ cores.Pairwise (fun a b => a.end + c ≤ b.start) := by
+  obtain ⟨sorted, cores, _, hsorted, hfind, hmap, _⟩ := findCores_line r hlin c hc anchors hne hok
+  refine ⟨cores, hfind, ?_⟩
+  have := sweep_hulls_apart c sorted hsorted
+  rw [← hmap, List.pairwise_map] at this
+  exact this
+
+theorem cores_apart_ring_wide_partial (r : Rec) (hcirc : r.circular = true) (c A B : Int)
+    (harc : WideArc r.len c A B) (anchors : List Loc) (hne : anchors ≠ [])
+    (hok : ∀ l ∈ anchors, GeneIn r.len A B l) :
+    ∃ cores, findCores r c anchors = .ok cores ∧ cores.Pairwise (fun a b => a.end + c ≤ b.start) := by
+  obtain ⟨sorted, cores, _, hsorted, hfind, hmap, _⟩ :=
+    findCores_arcW r c A B harc.cpos harc.lo harc.hi (arcOps_ring_wide r hcirc c A B harc) anchors hne hok
+  refine ⟨cores, hfind, ?_⟩
+  have := sweep_hulls_apart c sorted hsorted
+  rw [← hmap, List.pairwise_map] at this
+  exact this
+
 /-- **The protoclusters of a rule (circular record, anchors in a wide arc)** — `_partial` only through
     `WideArc` for the *cutoff*; the neighbourhood is any non-negative distance: the location is
     `_extend_area_location`'s closed form — the core widened by `min(nbhd, (L − len)/2 + 1)` on both sides,
